@@ -19,14 +19,14 @@ def sim_time():
     s = Sim.current
     if s is None:
         return REAL_TIME()
-    return s.now
+    return s.now + s.wall_offset      # (the wall clock may have been stepped; timers run on s.now)
 
 
 class SimDateTime(_dt.datetime):
     @classmethod
     def now(cls, tz=None):
         s = Sim.current
-        t = s.now if s is not None else REAL_TIME()
+        t = (s.now + s.wall_offset) if s is not None else REAL_TIME()
         return cls.fromtimestamp(t, tz)
 
     @classmethod
